@@ -160,7 +160,11 @@ def check_case(case):
     amap_items = [tuple(x) for x in case['aliases']]
     amap = dict(amap_items)
     preferred = list(case.get('preferred') or [])
-    labels = list(range(2000, 2000 + case.get('n', 4)))
+    if case.get('labels') == 'alias-names':
+        # period labels that happen to be spelt like the model's alias / variable names
+        labels = (POOL[:3] + ['A', 'p4', 'B'])[:case.get('n', 4)]
+    else:
+        labels = list(range(2000, 2000 + case.get('n', 4)))
     n = len(labels)
     res = Result(classes=['entries=%d' % len(amap_items)])
     chain = any(v in amap and v != k for k, v in amap_items)
@@ -304,7 +308,7 @@ def gen_maps(max_entries):
                 prefs.append([keys[-1], 'B'])
                 if len(keys) > 1:
                     prefs.append(keys[:2])
-            yield {'aliases': amap, 'preferred': prefs[i % len(prefs)], 'n': 4,
+            yield {'aliases': amap, 'preferred': prefs[i % len(prefs)], 'n': 4, 'labels': 'alias-names' if i % 3 == 1 else 'int',
                    'init': [[0, 1, [1.0, 2.0, 3.0, 4.0]]] if i % 2 else [], 'ops': BASIC_OPS[i % 3:] + BASIC_OPS[:i % 3]}
     return gen
 
@@ -348,7 +352,7 @@ def strategy():
         )
         init = draw(st.lists(st.tuples(vi, via, st.lists(scal, min_size=n, max_size=n)).map(list), max_size=2, unique_by=lambda x: x[0] % 4))
         return {'aliases': [list(x) for x in amap], 'preferred': preferred, 'n': n, 'init': init,
-                'ops': draw(st.lists(op, max_size=10))}
+                'labels': draw(st.sampled_from(['int', 'int', 'alias-names'])), 'ops': draw(st.lists(op, max_size=10))}
     return cases()
 
 
